@@ -68,8 +68,10 @@ for step in cfg["steps"]:
     is_async = f["kind"] == "async"
     plain, cached = get_pair(fi, step)
     perm = random.Random(step.get("perm", 0))
-    args = [gen_obj.build(s, perm) for s in step["args"]]
-    kwargs = {k: gen_obj.build(s, perm) for k, s in step["kwargs"].items()}
+    # share: equal str / bytes leaves of this call are ONE object (a literal or variable reused); otherwise each is a fresh object
+    pool = {} if step.get("share") else None
+    args = [gen_obj.build(s, perm, strpool=pool) for s in step["args"]]
+    kwargs = {k: gen_obj.build(s, perm, strpool=pool) for k, s in step["kwargs"].items()}
     rec = {}
     if step.get("check_before") and not is_async:
         try:
